@@ -66,7 +66,8 @@ def chunk_part(ctx, tmp):
     ctx.require_ok(ctx.tlc("ChunkedDigest", "ChunkedDigest.cfg", must_cover=["Read", "Update"]))
     K = 1 << 20
     sizes = [0, 1, K - 1, K, K + 1, 2 * K, 3 * K + 5]
-    algs = ["md5", "sha1", "sha256", "sha512"] if ctx.quick else sorted(hashlib.algorithms_available)
+    main_algs = ["md5", "sha1", "sha256", "sha512"]
+    algs = sorted(hashlib.algorithms_available)         # every algorithm hashlib offers by name (quick: two sizes for the rarer ones)
     files = {}
     for n in sizes:
         p = os.path.join(tmp, "blob%d" % n)
@@ -83,6 +84,8 @@ def chunk_part(ctx, tmp):
         except ValueError:
             continue
         for n, p in files.items():
+            if ctx.quick and alg not in main_algs and n not in (1, K + 1):
+                continue
             try:
                 digest, log = record_compute(p, alg)
             except Exception as exc:
@@ -123,6 +126,25 @@ def chunk_part(ctx, tmp):
         if tuple(t.checksums.checksums.get("changing", ())) != ("md5", hashlib.md5(content).hexdigest()):
             ctx.fail({"content_len": len(content)}, "Checksums.add twice for one normalised path: recorded %r" % (t.checksums.checksums,), "digest")
         ctx.evaluations += 4
+    # content replaced by other content of the SAME size with the modification time put back (a restored backup, a clamped
+    # mtime, two writes within one clock tick): the digest is that of what is in the file now
+    for alg in ("sha256", "md5"):
+        with open(p, "wb") as fh:
+            fh.write(b"A" * 4096)
+        TI.compute_checksum(p, alg)
+        st = os.stat(p)
+        with open(p, "wb") as fh:
+            fh.write(b"B" * 4096)
+        os.utime(p, ns=(st.st_atime_ns, st.st_mtime_ns))
+        got = TI.compute_checksum(p, alg)
+        if got != hashlib.new(alg, b"B" * 4096).hexdigest():
+            ctx.fail({"alg": alg, "same_size_same_mtime": True}, "compute_checksum of a file rewritten with other content of the same size and "
+                     "the same modification time returns %s, not the %s digest of the current content" % (got, alg), "digest")
+        t = samples.treeinfo(0)
+        t.checksums.add("changing", alg, root_dir=tmp)
+        if tuple(t.checksums.checksums.get("changing", ())) != (alg, hashlib.new(alg, b"B" * 4096).hexdigest()):
+            ctx.fail({"alg": alg, "same_size_same_mtime": True}, "Checksums.add records %r for the rewritten file" % (t.checksums.checksums,), "digest")
+        ctx.evaluations += 2
     verdicts = T.validate_batch(ctx, "Trace_Chunked", "Trace_Chunked.cfg", trs)
     inv = verdicts.pop("__invariant__", None)
     if inv:
